@@ -8,4 +8,30 @@ package types
 //@ // ---- C13: the vesting denomination ----
 //@ func (p Params) Validate() (err)
 //@   ensures (err == nil) == (len(p.Denom) != 0)
-//@   prop C13
+//@   prop C13 C20
+
+//@ // ---- C20: entry points under the no-panic sweep (no functional claim here: they must not panic for any field values) ----
+//@ func (msg MsgCreateVestingAccount) ValidateBasic() (r0)
+//@   requires msg != nil
+//@   prop C20
+//@ func (msg MsgCreateVestingPool) ValidateBasic() (r0)
+//@   requires msg != nil
+//@   prop C20
+//@ func (msg MsgMoveAvailableVesting) ValidateBasic() (r0)
+//@   requires msg != nil
+//@   prop C20
+//@ func (msg MsgMoveAvailableVestingByDenoms) ValidateBasic() (r0)
+//@   requires msg != nil
+//@   prop C20
+//@ func (msg MsgSendToVestingAccount) ValidateBasic() (r0)
+//@   requires msg != nil
+//@   prop C20
+//@ func (msg MsgSplitVesting) ValidateBasic() (r0)
+//@   requires msg != nil
+//@   prop C20
+//@ func (msg MsgUpdateDenomParam) ValidateBasic() (r0)
+//@   requires msg != nil
+//@   prop C20
+//@ func (msg MsgWithdrawAllAvailable) ValidateBasic() (r0)
+//@   requires msg != nil
+//@   prop C20
